@@ -37,6 +37,13 @@ CHECKS = {
             'seeded random generation. Value and consumed length are compared with a reference decoder written from DWARF v5 7.6/7.4.',
             'Trusted: the reference decoders in vf/enc/leb.py and int.from_bytes; Hypothesis; that struct_parse is the entry point callers use.',
             'DESIGN.md 4/C16'),
+    'C17': ('exhaustive enumeration of every (table, name, value) of the library against vendored glibc/LLVM registries and cited supplements, both directions (name->value, reported name for value)',
+            'Exploration, exhaustive over the finite domain: all 2,909 (table, name) pairs of the ELF and DWARF tables; name->value against the registries, and the name '
+            'the library actually reports for each code (through ELFFile on synthesized files, describe_reloc_type, the DWARF enum adapters and reverse maps) against the '
+            'registry names of that code in the same namespace; readelf -rW referees tables the vendored registries do not cover.',
+            'Trusted: vendored /usr/include/elf.h (glibc 2.36), LLVM 14 BinaryFormat headers, hand-transcribed supplements with citations (vf/registry/c17_supp.py), readelf 2.40 for V850 only. '
+            'Names without any registry counterpart (53) are reported as unreferenced, not verified.',
+            'DESIGN.md 4/C17'),
 }
 
 NOT_YET = {}
